@@ -8,10 +8,13 @@ import (
 	_ "embed"
 	"encoding/json"
 	"fmt"
+	"go/ast"
 	"go/constant"
+	"go/parser"
 	"go/token"
 	"go/types"
 	"os"
+	"path/filepath"
 	"sort"
 	"strings"
 
@@ -48,7 +51,7 @@ type Prog struct {
 	Inlined []string
 	// Threaded: number of result merges of inlined helpers that were given back their direct edges (normphi.go)
 	Threaded int
-	OrigDir string
+	OrigDir  string
 }
 
 // Load type-checks /repo from source (no tests), builds SSA with generics instantiated.
@@ -837,8 +840,76 @@ func (p *Prog) Pos(pos token.Pos) string {
 	}
 	ps := p.Fset.Position(pos)
 	f := strings.TrimPrefix(ps.Filename, p.RepoDir+"/")
+	if p.OrigDir != "" {
+		// the analysed tree is the copy with the inlined helpers: name the place in the tree the user has — the
+		// declaration of the enclosing function there — and say which line of the copy is meant
+		if name, line := p.origFuncLine(ps.Filename, f, pos); name != "" {
+			return fmt.Sprintf("%s:%d (in %s; line %d of the copy with the inlined helpers)", f, line, name, ps.Line)
+		}
+		return fmt.Sprintf("%s:%d (line of the copy with the inlined helpers)", f, ps.Line)
+	}
 	return fmt.Sprintf("%s:%d", f, ps.Line)
 }
+
+// origFuncLine: the declared function of the analysed copy that contains pos, and the line of the declaration of the
+// function with that name and receiver in the same file of the original tree.
+func (p *Prog) origFuncLine(filename, rel string, pos token.Pos) (string, int) {
+	declName := func(fd *ast.FuncDecl) string {
+		n := fd.Name.Name
+		if fd.Recv != nil && len(fd.Recv.List) == 1 {
+			t := fd.Recv.List[0].Type
+			if st, ok := t.(*ast.StarExpr); ok {
+				t = st.X
+			}
+			if ix, ok := t.(*ast.IndexExpr); ok {
+				t = ix.X
+			}
+			if id, ok := t.(*ast.Ident); ok {
+				n = id.Name + "." + n
+			}
+		}
+		return n
+	}
+	name := ""
+	for _, pk := range p.All {
+		for _, file := range pk.Syntax {
+			tf := p.Fset.File(file.Pos())
+			if tf == nil || tf.Name() != filename {
+				continue
+			}
+			for _, d := range file.Decls {
+				if fd, ok := d.(*ast.FuncDecl); ok && fd.Pos() <= pos && pos <= fd.End() {
+					name = declName(fd)
+				}
+			}
+		}
+	}
+	if name == "" {
+		return "", 0
+	}
+	if origDecls == nil {
+		origDecls = map[string]map[string]int{}
+	}
+	m, ok := origDecls[rel]
+	if !ok {
+		m = map[string]int{}
+		fs := token.NewFileSet()
+		if af, err := parser.ParseFile(fs, filepath.Join(p.OrigDir, rel), nil, parser.SkipObjectResolution); err == nil {
+			for _, d := range af.Decls {
+				if fd, ok := d.(*ast.FuncDecl); ok {
+					m[declName(fd)] = fs.Position(fd.Pos()).Line
+				}
+			}
+		}
+		origDecls[rel] = m
+	}
+	if line, ok := m[name]; ok {
+		return name, line
+	}
+	return "", 0
+}
+
+var origDecls map[string]map[string]int
 
 // ---- obligations ----
 
